@@ -45,7 +45,8 @@ def cases(draw):
     mode = draw(st.sampled_from(["heuristic", "thorough", "exhaustive", "strip"]))
     n = draw(st.integers(1, 8))
     return {"src": src, "setting": {"rate": rate, "blockshape": list(bs)}, "mode": mode,
-            "ops": [draw(ops.abstract_op(METHODS)) for _ in range(n)], "shared_reader": draw(st.booleans())}
+            "ops": [draw(ops.abstract_op(METHODS)) for _ in range(n)], "shared_reader": draw(st.booleans()),
+            **({"companion": draw(st.integers(0, 10 ** 6))} if draw(st.integers(0, 3)) == 0 else {})}
 
 
 def run_case(case, ctx):
@@ -74,7 +75,17 @@ def run_case(case, ctx):
     stages.check_file(out, want, "2d")
     T = files.Truth(conv.read_bytes(out))
     aops = case["ops"] if headers is not None else [a for a in case["ops"] if a["m"] not in ops.METHODS_3D_HEADERS]
-    labels = ops.run_ops(out, T, aops, fresh=not case.get("shared_reader"))
+    companion = None
+    if case.get("companion") is not None:
+        # a second line of the same geometry and layout with other samples, open in another reader meanwhile
+        cdesc = {"kind": "spec", "family": "2d", "rate": rate, "blockshape": list(bs), "shape": [T.n_tr, T.n_s], "version": "0.2.8",
+                 "values": {"kind": "gauss", "vseed": int(case["companion"])}, "z0": 0, "dz_us": 4000, "arrays": [1]}
+        companion = files.build(cdesc, d, name="companion.sgz")
+        aops = [a for a in aops if a["m"] not in ops.METHODS_3D_HEADERS]
+        labels_extra = ["companion-reader"]
+    labels = ops.run_ops(out, T, aops, fresh=not case.get("shared_reader"), companion=companion)
+    if companion is not None:
+        labels.append("companion-reader")
     if case.get("shared_reader"):
         labels.append("shared-reader")
     with SgzReader(out) as r:
